@@ -158,7 +158,7 @@ def run(ck, w):
                 # which peeked entries are consumed
                 took = set()
                 for e in mn.events:
-                    if e.bb in region and e.name == "std::option::Option::<T>::take" and mn.must_pass_edges({(sb, tgt)}, e.bb):
+                    if e.bb in region and e.name in ("std::option::Option::<T>::take", "std::mem::take", "std::mem::replace") and mn.must_pass_edges({(sb, tgt)}, e.bb):
                         for x in flow.origins_x(lib, mn, e.args[0]):
                             if x[0] in ("param", "upvar"):
                                 took |= {f for f in x[2] if f in ("next_a", "next_b")}
